@@ -24,10 +24,6 @@ REQ_MEMBER = {"ListToolsResult": "tools", "ListPromptsResult": "prompts", "ListR
               "AudioContent": "data", "ToolResultContent": "content"}
 
 
-def msg_ctx(c):
-    return "kind=%s|id=%s|payload=%s|flavor=%s|framing=%s|dir=%s" % (c["kind"], c["id"], c["payload"], c["flavor"], c["framing"], c["dir"])
-
-
 def sigs_of(e, inv):
     """Signatures (abstract failing case) for a monitor failure `inv` on observation `e`."""
     k, c, o = e["k"], e.get("c"), e.get("o")
@@ -40,12 +36,12 @@ def sigs_of(e, inv):
         if c["method"] == "empty" and name in ("Method", "Class"):
             return ["method-class=empty:lost"]
         if name == "Class":
-            return ["decoded-as=%s:%s" % (o["cls"], msg_ctx(c))]
+            return ["decoded-as=%s:kind=%s|framing=%s|dir=%s" % (o["cls"], c["kind"], c["framing"], c["dir"])]
         if name == "Frame":
-            return ["framing=%s:broken|%s" % (c["framing"], msg_ctx(c))]
-        return ["field=%s:lost|%s" % (FIELD[name], msg_ctx(c))]
+            return ["framing=%s:broken|flavor=%s|dir=%s" % (c["framing"], c["flavor"], c["dir"])]
+        return ["field=%s:lost|kind=%s|payload=%s|framing=%s|dir=%s" % (FIELD[name], c["kind"], c["payload"], c["framing"], c["dir"])]
     if k == "wire":
-        shape = "ver=%s,id=%s,method=%s,params=%s,result=%s,error=%s,casing=%s" % (
+        shape = "ver=%s,id=%s,method=%s,params=%s,result=%s,error=%s,casing=%s" % (  # valid shapes are few
             c["ver"], c["id"], c["method"], c["params"], c["result"], c["error"], c["casing"])
         if inv == "NoPanic":
             return ["panic:DecodeMessage|" + shape]
@@ -53,7 +49,7 @@ def sigs_of(e, inv):
             return ["case-insensitive:wire.%s" % c["casing"]]
         return ["valid-wire-not-preserved:decoded-as=%s|%s" % (o["cls"], shape)]
     if k == "val":
-        ctx = "cont=%s|ckind=%s|fill=%s|nested=%s|arity=%s" % (c["cont"], c["ckind"], c["fill"], c["nested"], c["arity"])
+        ctx = "cont=%s|ckind=%s" % (c["cont"], c["ckind"])
         if inv == "ValRoundTrip":
             if not o["ok"]:
                 if c["arity"] == "nil":
@@ -98,6 +94,9 @@ def run(tier, seed, replay):
         "goroutine panics inside ioConn's reader goroutine would crash the test binary and are reported as a process panic",
     ]
     out = vlib.outdir(PID)
+    for f in os.listdir(out):  # replay files of earlier runs
+        if f.startswith("violation-"):
+            os.remove(os.path.join(out, f))
     # 1. design check + case export by TLC
     wd = vlib.scratch("tlc-")
     res = vlib.run_tlc("Codec", "Codec.cfg", workdir=wd, workers=1, timeout=600, heap_gb=4)
